@@ -180,6 +180,12 @@ def cli_case(rng, idx):
     ew = lambda ws: ",".join(proto.enc_s(w) for w in ws)
     lines.append(Line("corr", "split_cmd", ["export", ew(swords), fmt, ew(do), proto.enc_s(decl) if decl is not None else "n", ew(names),
                                             ew(pwords), proto.enc_s(spec), proto.enc_s("".join(x[0] for x in sents))], parts_txt))
+    if fmt == "tigerxml" and rc == 0 and texts and not problems:
+        # wave 19: every TIGER-XML part through the model's own XML parser (TT.Xml.parseXmlDoc; Props/C17Xml.lean
+        # split_parts_readable_tiger): the element structure ElementTree sees in the part written by the real command
+        from props import c03 as _c03
+        for x in texts:
+            lines.append(Line("corr", "xml_parse", [proto.enc_s(x)], "X" + _c03.xsents(x), note="a TIGER-XML part of the split"))
     if problems:
         l = Line("pred", "P.C17.reject", [proto.enc_s(spec), str(n)], note=";".join(problems))
         l.expect = "parts-well-formed-expected:" + problems[0]
